@@ -9,6 +9,7 @@ from typing import Optional
 
 from ..core import Checker, Rule, attr_calls, callee_is, calls_in, kwarg, resolved_calls, short
 from ..interp import Pins, find_nodes, unparse
+from ..kinds import Kinds
 from ..model import Func
 from .util import effect_table, enclosing_loop, enclosing_stmt, enum_members, every_iteration_reaches, fmt, inline_displays, is_const, parent, parents, returns_of, single_def
 
@@ -107,6 +108,21 @@ def r_domain_names(ck: Checker) -> None:
             ck.add(f"{hname}: the invented predicate comes from _predicate", okh, h, ret, f"returns `{short(' | '.join(sorted(txts)), 100)}`",
                    "a name built with the plain constructor is never compared with the predicates of the source: a program that already has `__next_0_0__dom_p/2` gets ngo's rules added to its own predicate")
     ck.need(n_h >= 4, "helpers that invent domain predicates")
+    # one predicate per (annotated predicate, position): the invented name spells out every annotated position AND the
+    # requested position, and names the domain predicate it is built over
+    for hname in ("min_anon_predicate", "max_anon_predicate", "next_anon_predicate", "chain_pred"):
+        h = ck.prg.funcs.get(f"ngo.dependency:DomainPredicates.{hname}")
+        if h is None:
+            continue
+        ap, pos_p = h.params()[1], h.params()[2]
+        for ret in returns_of(h):
+            if not (isinstance(ret.value, ast.Call) and ret.value.args):
+                continue
+            name_e = ck.interp(h).expand(ret.value.args[0], ck.interp(h).states(ret)[0]) if ck.interp(h).states(ret) else ret.value.args[0]
+            fvals = [unparse(v.value) for x in ast.walk(name_e) if isinstance(x, ast.JoinedStr) for v in x.values if isinstance(v, ast.FormattedValue)]
+            okn = pos_p in fvals and any(f"{ap}.annotated_positions" in t for t in fvals) and f"self.domain_predicate({ap}.pred).name" in unparse(name_e)
+            ck.add(f"{hname}: the name identifies annotated positions, requested position and domain", okn, h, ret, f"name components {fvals} + `{'self.domain_predicate(..).name' if 'domain_predicate' in unparse(name_e) else '?'}`",
+                   "two weights at positions 1 and 2 of one predicate need two minimum predicates: a name that spells only the first annotated position makes both `#min` rules define the same predicate, and both successor relations gain foreign pairs")
 
 
 def _head_name_sources(ck: Checker, func: Func, rule_call: ast.Call) -> set[str]:
@@ -474,6 +490,46 @@ def r_binders(ck: Checker) -> None:
         ck.guard(f"aggregate {g} binds only as a positive `=`", body, c, f"stm.sign == Sign.NoSign and stm.atom.{g}.comparison == ComparisonOperator.Equal", "`X = #sum{..}` binds X, `not X = #sum{..}` and `X < #sum{..}` do not")
 
 
+def r_literal_atoms(ck: Checker) -> None:
+    """`Literal(loc, sign, atom)`: the third argument is an ATOM. A Literal put there prints like the atom (`not X = #sum{..}`,
+    `#true`), so the text round-trips, but the AST is rejected by clingo ('invalid ast: atom expected')"""
+    n = 0
+    feeders: dict[str, list[tuple[Func, ast.Call]]] = {}
+    for func in ck.prg.funcs.values():
+        if isinstance(func.node, ast.Lambda):
+            continue
+        calls = resolved_calls(ck.prg, func, "clingo.ast.Literal")
+        if not calls:
+            continue
+        it = ck.interp(func)
+        kd = Kinds(it)
+        for call in calls:
+            if len(call.args) < 3:
+                continue
+            n += 1
+            arg = call.args[2]
+            kinds = set()
+            for st in it.states(call):
+                k = kd.of(arg, st)
+                if k:
+                    kinds |= k
+                exp = it.expand(arg, st)
+                if isinstance(exp, ast.Call):
+                    res = ck.prg.resolve_callee(func, exp.func)
+                    if res in ck.prg.funcs:
+                        feeders.setdefault(res, []).append((func, call))
+            bad = kinds & {"Literal", "ConditionalLiteral"}
+            ck.add(f"Literal(.., atom) in {func.name}: the atom is not itself a literal", not bad, func, call, f"`{short(unparse(call), 80)}`: third argument can be of kind {sorted(bad) or sorted(kinds) or 'unknown (not a literal by construction)'}",
+                   "a Literal inside a Literal prints like the inner one, so the printed program is fine while ProgramBuilder.add rejects the AST: the API path and the text path disagree")
+    for q, users in sorted(feeders.items()):
+        f2 = ck.prg.funcs[q]
+        for ret in returns_of(f2):
+            if isinstance(ret.value, ast.Call) and callee_is(ck.prg, f2, ret.value, "clingo.ast.Literal"):
+                ck.add(f"{f2.name} returns atoms (its result is wrapped in Literal(..) by {users[0][0].name})", False, f2, ret, f"`{short(unparse(ret), 80)}` returns a Literal", "see above: Literal inside Literal")
+        ck.add(f"{f2.name}: result used as the atom of a Literal", True, f2, f2.node, f"wrapped at {len(users)} site(s)", "", nontrivial=False)
+    ck.need(n >= 25, f"Literal constructions found ({n})")
+
+
 def r_head_binders(ck: Checker) -> None:
     """TABLE collect_binding_information_head: per head kind, what the body has to bind"""
     func = ck.func("utils.ast:collect_binding_information_head")
@@ -533,6 +589,7 @@ RULES = [
     Rule("C07.FLOW.passthrough", P7, r_passthrough),
     Rule("C04.lexical", P4, r_lexical),
     Rule("C04.TABLE.binders", P4 + ("C16", "C10", "C13", "C14"), r_binders),
+    Rule("C04.literal-atoms", P4 + ("C01",), r_literal_atoms),
     Rule("C04.TABLE.head-binders", P4 + ("C14", "C16", "C11", "C01"), r_head_binders),
     Rule("C04.global-vars", P4 + ("C16", "C10", "C11", "C14", "C01"), r_global_vars),
 ]
